@@ -1373,13 +1373,11 @@ private:
           }
           else if (isPlausibleEpochMs(expiryMs))
           {
-            const auto exp = fromEpochMs(expiryMs);
-            if (exp > now)
-            {
-              _kv[key] = std::move(value);
-              _expiry[key] = ExpiryEntry{exp, core::InvalidTimerId};
-            }
-            // else: already expired at load — drop the entry entirely.
+            // Keep the entry even if its expiry is already past: a later 'X'
+            // (expireAt/persist) record in the log may extend or clear it.
+            // Entries still expired after the whole replay are dropped below.
+            _kv[key] = std::move(value);
+            _expiry[key] = ExpiryEntry{fromEpochMs(expiryMs), core::InvalidTimerId};
           }
           // else: implausible (corrupt) expiry — drop the entry, mirroring the
           // 'E' log op's sanity-bound rejection (KTP-11). NOT kept as eternal.
@@ -1392,10 +1390,32 @@ private:
       }
     }
 
+    // Expiry is evaluated once, on the FINAL replayed state: dropping a key at
+    // the first expired 'E'/'X' record would lose a key that a later 'X'
+    // record (expireAt/persist) extended or made permanent.
+    auto dropExpired = [this, now]()
+    {
+      for (auto it = _expiry.begin(); it != _expiry.end();)
+      {
+        if (it->second.expiry <= now)
+        {
+          _kv.erase(it->first);
+          it = _expiry.erase(it);
+        }
+        else
+        {
+          ++it;
+        }
+      }
+    };
+
     // Load log with enhanced error handling and corruption detection
     std::ifstream log(_logPath, std::ios::binary);
     if (!log.is_open())
+    {
+      dropExpired();
       return; // No log file yet
+    }
 
     while (log.peek() != EOF)
     {
@@ -1499,17 +1519,10 @@ private:
         }
         std::vector<std::uint8_t> value(valLen);
         std::memcpy(value.data(), ptr, valLen);
-        const auto exp = fromEpochMs(expiryMs);
-        if (exp > now)
-        {
-          _kv[key] = std::move(value);
-          _expiry[key] = ExpiryEntry{exp, core::InvalidTimerId};
-        }
-        else
-        {
-          _kv.erase(key); // already expired → drop
-          _expiry.erase(key);
-        }
+        // Applied regardless of `now`: whether the key is expired is decided
+        // after the whole log has been replayed (a later 'X' may extend it).
+        _kv[key] = std::move(value);
+        _expiry[key] = ExpiryEntry{fromEpochMs(expiryMs), core::InvalidTimerId};
       }
       else if (op == 'X')
       {
@@ -1529,16 +1542,7 @@ private:
         }
         else if (isPlausibleEpochMs(expiryMs))
         {
-          const auto exp = fromEpochMs(expiryMs);
-          if (exp > now)
-          {
-            _expiry[key] = ExpiryEntry{exp, core::InvalidTimerId};
-          }
-          else
-          {
-            _kv.erase(key); // expiry already past → drop the key
-            _expiry.erase(key);
-          }
+          _expiry[key] = ExpiryEntry{fromEpochMs(expiryMs), core::InvalidTimerId};
         }
         // implausible expiry → ignore
       }
@@ -1548,6 +1552,8 @@ private:
         _expiry.erase(key);
       }
     }
+
+    dropExpired();
   }
 
   void writeLogEntry(char op, const std::string &key, const std::vector<std::uint8_t> &value,
